@@ -280,7 +280,7 @@ func runC15(w *core.WorkerCtx, idx int) *core.CaseResult {
 	for j, gs := range groups {
 		for gi := range gs {
 			for ti := range gs[gi].Targets {
-				for e := 0; e < 5; e++ {
+				for e := 0; e < 6; e++ {
 					g2 := map[string][]TG{}
 					for jj, gg := range groups {
 						g2[jj] = permuteGroups(core.NewRng(1), gg, 3) // deep copy, fixed order
@@ -315,6 +315,8 @@ func runC15(w *core.WorkerCtx, idx int) *core.CaseResult {
 						}
 					case 4:
 						tgt["__address__"] = "edited-host.example:7777"
+					case 5:
+						tgt["__tmp_edited"] = "x" // a reserved label outside the URL is still a label
 					}
 					o := c15Observe(&c15Input{Config: text, Groups: g2, Rounds: 1})
 					if o.Err != "" {
@@ -376,7 +378,7 @@ func init() {
 		ID:    "C15",
 		Level: "exploration",
 		Rule: "case = generated configuration (1-4 scrapeable jobs with relabel programs over meta labels) + generated target groups per job (ports present/absent, IPv6 literals, group vs target labels, duplicates inside and across groups, targets a rule drops, digit-leading label names) run through the real TargetsDiscovery; " +
-			"observations: first round, 3 repeated rounds, 3 permutations (order; group labels pushed down; common labels lifted to the group), 1-3 fresh processes, and up to 40 single-component edits (a label value, a param, the path, the scheme, the address) of individual targets; " +
+			"observations: first round, 3 repeated rounds, 3 permutations (order; group labels pushed down; common labels lifted to the group), 1-3 fresh processes, and up to 40 single-component edits (a label value, a param, the path, the scheme, the address, a reserved __tmp label that is not part of the URL) of individual targets; " +
 			"oracle: across ALL observations of the case the relation hash <-> (shipped labels, URL) is a bijection, the by-hash table has one key per distinct target, and the equal-input observations yield the same set; " +
 			"non-trivial = at least 2 distinct active targets; distinct = hash of configuration text and groups",
 		Assumptions: []string{"a target's identity is taken as (labels kvass ships for it, scrape URL of the Prometheus target object)"},
